@@ -65,6 +65,10 @@ class Plan:
         """-> (traces, inputs). Seeded / enumerated drivers on the real code."""
         return [], []
 
+    def post(self, traces, inputs):
+        """-> extra coverage computed over all real traces (e.g. Impl-level trace validation)."""
+        return {}
+
     def controls(self, base_traces):
         """-> list of traces with meta.control = {clause, step} (step may be 0 = any)."""
         return []
@@ -155,6 +159,11 @@ def run(plan, tier, replay_path=None):
         et, ei = plan.executions(tier, sd)
         traces += et
         inputs += ei
+        post = plan.post(traces, inputs)
+        cov.update(post)
+        if post.get("drift_count"):
+            say("NOTE drift: %d recorded executions are not behaviours of the implementation-shaped model (first: %s)" %
+                (post["drift_count"], json.dumps(post.get("drift_notes", [None])[0], default=str)[:300]))
     nreal = len(traces)
     controls = [] if replay_path else plan.controls(traces)
     failures, done, _ = validate(plan, traces + controls)
